@@ -44,7 +44,11 @@ Pb(p) == IF LzipFamily(p.w) THEN 2 ELSE p.pb
 \* ------------------------------------------------------------------ dictionary-size classes
 \* "100000" and "600000" are in range but not representable in the LZIP header byte (2^n - k * 2^(n-4)) nor as an
 \* LZMA2 property (2^n, 3 * 2^(n-1)): the container must announce a size that is not smaller than the encoder's window
-DictClasses == {"0", "1", "4095", "4096", "64K", "100000", "600000", "1M", "768M", "768M+1", "1.5G", "2G", "4G-16", "4G-1"}
+\* "5000" is in range and off every grid (neither 2^n nor 3 * 2^(n-1)): dict_size and dict_size - 1 share a distance slot
+DictClasses == {"0", "1", "4095", "4096", "5000", "64K", "100000", "600000", "1M", "768M", "768M+1", "1.5G", "2G", "4G-16", "4G-1"}
+\* the classes an ordinary machine can allocate: also executed with the optimal parser (distance-slot prices, 4096 bytes of
+\* extra history) and both match finders
+DictOrdinary == {"0", "1", "4095", "4096", "5000", "64K", "100000", "600000", "1M"}
 DictZero(d) == d = "0"
 DictBelowMin(d) == d \in {"0", "1", "4095"}
 DictAboveEnc(d) == d \in {"768M+1", "1.5G", "2G", "4G-16", "4G-1"}       \* beyond what the LZ encoder can index
@@ -139,6 +143,7 @@ Base(w) == [w |-> w, slice |-> "base", lc |-> 3, lp |-> 0, pb |-> 2, dict |-> "6
 Props(w) == {[Base(w) EXCEPT !.slice = "props", !.lc = a, !.lp = b] : a \in 0..9, b \in 0..5}
             \cup {[Base(w) EXCEPT !.slice = "props", !.pb = c, !.lc = a[1], !.lp = a[2]] : c \in {0, 4, 5}, a \in {<<3, 0>>, <<0, 4>>, <<8, 4>>}}
 Dicts(w) == {[Base(w) EXCEPT !.slice = "dict", !.dict = x, !.mf = m, !.mode = "fast"] : x \in DictClasses, m \in {"hc4"}}
+            \cup {[Base(w) EXCEPT !.slice = "dict", !.dict = x, !.mf = m, !.mode = "normal"] : x \in DictOrdinary, m \in {"hc4", "bt4"}}
 Nices(w) == {[Base(w) EXCEPT !.slice = "nice", !.nice = x, !.mf = m, !.mode = o] :
                x \in {0, 1, 2, 3, 4, 7, 8, 273, 274, 1000}, m \in {"hc4", "bt4"}, o \in {"fast", "normal"}}
 Depths(w) == {[Base(w) EXCEPT !.slice = "depth", !.depth = x, !.mf = m] : x \in {"min", "neg1", "zero", "one", "max"}, m \in {"hc4", "bt4"}}
